@@ -299,6 +299,27 @@ class FnIndex:
         ty = hdr[i:j].strip()
         return norm_closure_ty(ty)
 
+    def coroutine_body(self, creator, head):
+        if creator is None:
+            return None
+        base = creator.name
+        kids = [f for n, f in self.dump.functions.items()
+                if n.startswith(base + '::{closure#') and n[len(base) + 2:].count('::') == 0]
+        if not kids:
+            return None
+        creator.parse()
+        if (creator.ret or '').startswith('{async fn body of') or len(kids) == 1:
+            for f in kids:
+                if f.name.endswith('{closure#0}'):
+                    return f
+        m = re.match(r'\{coroutine@(.*?)( \(#\d+\))?\}$', head.strip())
+        span = m.group(1) if m else None
+        if span:
+            for f in kids:
+                if span in f.header:
+                    return f
+        return None
+
     def resolve(self, pc, argvals=None):
         """find the MIR function for a parsed callee, or None"""
         method = pc['method']
@@ -615,20 +636,22 @@ class Interp:
         if k == 'adt':
             head, names = rv.extra
             vals = [self.eval_operand(frame, o) for o in rv.args]
-            return self.make_adt(head, names, vals)
+            return self.make_adt(head, names, vals, frame.fn)
         if k == 'len':
             v = self.read_place(frame, rv.args[0])
             return v.length()
         raise Unsupported('rvalue ' + k)
 
-    def make_adt(self, head, names, vals):
+    def make_adt(self, head, names, vals, creator=None):
         if head.startswith(('{closure@', '{coroutine@', '{async ')):
             key = norm_closure_ty(head)
-            fnc = self.index.closures.get(key)
             if head.startswith('{closure@'):
                 return Closure(key, vals)
-            # coroutine: state 0 (unresumed) with upvars
-            return Enum(key, 0, {}, vals)
+            # coroutine: state 0 (unresumed) with upvars; body = child closure of the creating function
+            body = self.index.coroutine_body(creator, head)
+            if body is None:
+                raise Unsupported('coroutine body not found for %s created in %s' % (head, creator.name if creator else '?'))
+            return Enum('coroutine:' + body.name, 0, {}, vals)
         flat = strip_generics(head)
         segs = flat.split('::')
         last = segs[-1]
